@@ -9,6 +9,7 @@ observable of any existing value.
 -/
 import RosedVerif.Model.InstAFacts
 import RosedVerif.Gen.Facts
+import RosedVerif.Model.EditorHistories
 namespace RosedVerif.Props
 open RosedVerif
 
@@ -40,5 +41,46 @@ theorem C08_commit_deterministic (e : Editor Int) : ∀ r₁ r₂, e.commit cxA 
 /-- shared cache cells never change what an existing value reports (C19's frame theorem) -/
 theorem C08_cache_frame (k : H.Call) (h : H.Heap) (c : Nat) (x : List Nat) (hx : h.get c = some x) :
     (k.run h).1.get c = some x := H.frame k h c x hx
+
+end RosedVerif.Props
+
+namespace RosedVerif.Props
+open RosedVerif
+
+/-- one more call — any operation, any arguments, failing or not — leaves the pool of previously
+obtained Editors a prefix of the new pool: same values at the same indexes -/
+theorem C08_pool_prefix (ops : List (EdOp Int)) (op : EdOp Int) :
+    runEd cxA ops <+: runEd cxA (ops ++ [op]) := runEd_prefix_snoc ops op
+
+/-- … and so does any sequence of calls -/
+theorem C08_pool_prefix_any (ops more : List (EdOp Int)) :
+    runEd cxA ops <+: runEd cxA (ops ++ more) := runEd_prefix ops more
+
+/-- every previously obtained Editor still reports the same text, options, counts, `String()`,
+`Commit()` and ancestors as when it was obtained -/
+theorem C08_pool_observables (ops more : List (EdOp Int)) (i : Nat) (ed : Editor Int)
+    (h : (runEd cxA ops)[i]? = some ed) :
+    ∃ ed', (runEd cxA (ops ++ more))[i]? = some ed' ∧ ed'.text = ed.text ∧ ed'.opts = ed.opts ∧
+      ed'.charCount cxA = ed.charCount cxA ∧ ed'.lineCount cxA = ed.lineCount cxA ∧
+      ed'.string cxA = ed.string cxA ∧ ed'.commit cxA = ed.commit cxA ∧ ed'.ancestry = ed.ancestry :=
+  runEd_observables ops more i ed h
+
+/-- the program semantics is a function: same pool, same call, same result -/
+theorem C08_step_deterministic (pool : List (Editor Int)) (op : EdOp Int) :
+    ∀ p₁ p₂, stepEd cxA pool op = p₁ → stepEd cxA pool op = p₂ → p₁ = p₂ :=
+  stepEd_deterministic pool op
+
+/-- a text-changing operation returns its receiver with another text: options, parent snapshot,
+byte range and the whole ancestor chain are the receiver's -/
+theorem C08_ancestors_untouched (pool : List (Editor Int)) (op : EdOp Int) (i : Nat) (r : Editor Int)
+    (hop : op.textChange = some i) (h : evalEd cxA pool op = some r) :
+    ∃ ed, pool[i]? = some ed ∧ ed.SameBut r ∧ r.opts = ed.opts ∧ r.link = ed.link ∧
+      r.ancestry = ed.ancestry := evalEd_textChange hop h
+
+/-- `WithOptions` changes the options and nothing else -/
+theorem C08_withOptions_untouched (pool : List (Editor Int)) (i : Nat) (o : Options Int)
+    (r : Editor Int) (h : evalEd cxA pool (.withOptions i o) = some r) :
+    ∃ ed, pool[i]? = some ed ∧ r = ed.withOpts o ∧ r.text = ed.text ∧ r.opts = o ∧
+      r.link = ed.link ∧ r.ancestry = ed.ancestry := evalEd_withOptions h
 
 end RosedVerif.Props
